@@ -28,7 +28,7 @@ RULE = ("full in-memory stack: real Router + 1..3 generated drivers (1-3 groups,
 ASSUMPTIONS = ["BLOB payloads are compared by C08; Element.enabled toggles at run time are not in the quantifier",
                "numbers are compared numerically within the format's resolution",
                "a device without enabled properties may or may not be listed"]
-REQUIRED_EVENTS = ["sessions", "sessions_with_a_slow_blob_connect", "client_submits_with_nothing_assigned", "client_handshakes_for_one_device", "sessions_with_a_tty_client", "tty_client_properties_compared", "sessions_with_lagging_blob_link", "client_restarts_with_kept_mirror", "driver_ops_while_client_disconnected", "driver_ops_during_handshake", "checkpoints", "library_client_properties_compared", "reference_mirror_messages",
+REQUIRED_EVENTS = ["reactive_in_process_client_cases", "sessions", "sessions_with_a_slow_blob_connect", "client_submits_with_nothing_assigned", "client_handshakes_for_one_device", "sessions_with_a_tty_client", "tty_client_properties_compared", "sessions_with_lagging_blob_link", "client_restarts_with_kept_mirror", "driver_ops_while_client_disconnected", "driver_ops_during_handshake", "checkpoints", "library_client_properties_compared", "reference_mirror_messages",
                    "snooping_client_checkpoints", "ops_with_bytes_in_flight", "depth3_sessions"]
 
 QUICK_SHARDS = 4
@@ -431,7 +431,55 @@ def _as_expected(view_props):
     return out
 
 
+def _text_spec(name):
+    el = {"attr": "e0", "name": "E0", "label": None, "default": "old", "enabled": True}
+    vec = {"attr": "t", "kind": "Text", "name": "TXT", "label": None, "state": None, "perm": None, "timeout": None, "enabled": True, "elements": [el]}
+    return {"name": name, "levels": [{"groups": [{"attr": "g", "name": "G", "enabled": True, "vectors": [vec]}]}]}
+
+
+def reactive_order_case(ctx, reactive_first):
+    """Three in-process clients (snooping clients of three drivers) follow device CAM.  One of them REACTS to a definition of
+    CAM.TXT by writing a new value from inside its callback (a driver that corrects a setting of the device it snoops as soon
+    as it sees it).  Afterwards every client must hold the device's value.  `reactive_first`: the reacting client was registered
+    with the router before the others (the re-entrant update then overtakes the definition on its way to the later ones)."""
+    from indi.client import events as CE
+    from indi.routing import Router
+    router = Router()
+    cam = D.build(_text_spec("CAM"))(router=router)
+    others = [D.build(_text_spec(f"G{k}"))(router=router) for k in range(3)]
+    order = [0, 1, 2] if reactive_first else [1, 2, 0]
+    clients = {}
+    for k in order:
+        clients[k] = others[k].snoop_device("NOBODY")       # creates and registers the snooping client, follows nothing yet
+    wrote = [0]
+
+    def react(event):
+        if event.vector.name == "TXT" and not wrote[0]:
+            wrote[0] += 1
+            event.vector.get_element("E0").value = "new"
+            event.vector.submit()
+    clients[0].onevent(callback=react, device="CAM", event_type=CE.DefinitionUpdate)
+    clients[2 if reactive_first else 1].handshake(device="CAM")       # somebody asks: CAM defines itself to everybody
+    ctx.count("reactive_in_process_client_cases")
+    dev = D.element_of(cam, "g", "t", "e0").value
+    case = {"mode": "reactive-order", "reactive_first": reactive_first}
+    if not wrote[0] or dev != "new":
+        ctx.violate("reactive-in-process-client:write-from-a-definition-callback-not-applied", f"the reacting client wrote {wrote[0]} time(s), device holds {dev!r}", case)
+        return
+    for k in (1, 2):
+        held = stack.client_view(clients[k]).get("CAM", {}).get("TXT", {}).get("elements", {}).get("E0", (None, None))[1]
+        if held != dev:
+            where = "earlier" if reactive_first else "later"
+            ctx.violate(f"in-process-client:stale-value:after-a-write-from-inside-a-definition-callback-of-an-{where}-registered-client",
+                        f"device CAM.TXT.E0 is {dev!r}; an in-process client registered {'after' if reactive_first else 'before'} the reacting one holds {held!r} "
+                        f"(it was handed the update first and the older definition afterwards)", case)
+            return
+
+
 def one_case(ctx, case):
+    if case.get("mode") == "reactive-order":
+        reactive_order_case(ctx, bool(case["reactive_first"]))
+        return
     nontrivial, ndrv, ncli = asyncio.run(session(ctx, case))
     ctx.case({"i": case["i"], "specs": case["specs"], "modes": [case["mode_c2s"], case["mode_s2c"]], "nops": case["nops"]},
              nontrivial=bool(nontrivial),
@@ -440,6 +488,9 @@ def one_case(ctx, case):
 
 
 def run(ctx):
+    if ctx.mine(0):
+        reactive_order_case(ctx, False)
+        reactive_order_case(ctx, True)
     n = 800 if not ctx.thorough else 30000
     for i in range(n):
         if not ctx.mine(i):
